@@ -37,6 +37,17 @@ class TemperatureFile(TemperatureArray):
             temperature_arr = arr[:]*convertT
 
         super().__init__(tp_array=temperature_arr, p_points=pressure_arr)
+        self._file_args = dict(filename=filename, skiprows=skiprows,
+                               temp_col=temp_col, press_col=press_col,
+                               temp_units=temp_units, press_units=press_units,
+                               delimiter=delimiter, reverse=reverse)
+
+    def write(self, output):
+        temperature = super().write(output)
+        for key, value in self._file_args.items():
+            if value is not None:
+                temperature.write_scalar(key, value)
+        return temperature
 
 
     @classmethod
